@@ -53,14 +53,20 @@ def load_prop(pid):
 
 
 def _lib_frame(tb):
-    """True if the innermost frame of the traceback lies in the library under test"""
+    """True if the innermost frame that is neither standard library nor third party lies in the library under test"""
     from . import simkit
 
     src = os.path.realpath(simkit._SRC)
-    last = None
-    for fs in traceback.extract_tb(tb):
-        last = fs
-    return last is not None and os.path.realpath(last.filename).startswith(src)
+    here = os.path.dirname(os.path.realpath(__file__))
+    # frames of the standard library / third-party packages are attributed to their caller (an enum lookup or a
+    # recursion limit hit inside the library is the library's exception, the same inside the harness is ours)
+    for fs in reversed(traceback.extract_tb(tb)):
+        fn = os.path.realpath(fs.filename)
+        if fn.startswith(src):
+            return True
+        if fn.startswith(here):
+            return False
+    return False
 
 
 def run_guarded(mod, case):
